@@ -200,3 +200,44 @@ pub fn gen_dcall_line(r: &mut Rng, f: &slac::function::Function) -> String {
     p.extend(args.iter().map(show_in));
     p.join(" ")
 }
+
+// ---------------------------------------------------------------- the two impure builtins (random, choice)
+/// what `random` / `choice` may answer for these arguments (the relational spec; mirror of SlacModel/Nondet.lean)
+pub fn nd_allowed(name: &str, args: &[V], ans: &Result<V, slac::stdlib::NativeError>) -> bool {
+    use slac::stdlib::NativeError as NE;
+    match name {
+        "choice" => {
+            let vs: Vec<V> = match args { [V::Array(v)] => v.clone(), _ => args.to_vec() };
+            match ans { Ok(v) => vs.iter().any(|x| show(x) == show(v)), Err(NE::WrongParameterType) => vs.is_empty(), Err(_) => false }
+        }
+        "random" => {
+            let m = match args.first() { None => 1.0, Some(V::Number(m)) => *m, Some(_) => return matches!(ans, Err(NE::WrongParameterType)) };
+            match ans { Ok(V::Number(x)) => if m == 0.0 { *x == 0.0 } else if m.is_nan() { x.is_nan() } else if m.is_infinite() { x.is_nan() || *x == m }
+                        // `(u as f64 * m) / 2^64`: the product overflows to an infinity of m's sign once |m| > f64::MAX / 2^64
+                        else { (x.min(m) >= m.min(0.0) && x.max(m) <= m.max(0.0)) || (m.abs() > f64::MAX / 18446744073709551616.0 && x.is_infinite() && x.signum() == m.signum()) }, _ => false }
+        }
+        _ => false,
+    }
+}
+/// `nd <hexname> <n> <args…> || <one answer observed at generation time>`
+pub fn gen_nd_line(r: &mut Rng) -> String {
+    let name = if r.chance(1, 2) { "random" } else { "choice" };
+    let args: Vec<V> = match name {
+        "random" => match r.below(6) { 0 => vec![], 1 => vec![gen_small_val(r)], 2 => vec![num(*r.pick(&[0.0, -0.0, 1.0, -1.0, 1e308, -1e308, 5e-324, f64::INFINITY, f64::NEG_INFINITY, f64::NAN, 2.0f64.powi(64), 0.1]))],
+                             3 => vec![num(gen_num(r)), gen_small_val(r)], _ => vec![num(gen_num(r))] },
+        _ => match r.below(5) { 0 => vec![], 1 => vec![V::Array(vec![])], 2 => { let n = 1 + r.below(6); vec![V::Array((0..n).map(|_| gen_small_val(r)).collect())] }
+                             3 => vec![V::Array(vec![V::Array(vec![num(1.0)])])], _ => { let n = 1 + r.below(5); (0..n).map(|_| gen_small_val(r)).collect() } },
+    };
+    let f = builtins().into_iter().find(|f| f.name == name).unwrap();
+    let ans = (f.func)(&args);
+    format!("nd {} {} {} || {}", hex(name), args.len(), args.iter().map(show_in).collect::<Vec<_>>().join(" "), show_nres(&ans)).replace("  ", " ")
+}
+/// runs the builtin 8 more times; every answer must be allowed by the relational spec → `member` | `violation <answer>`
+pub fn run_nd(t: &mut Toks) -> Option<String> {
+    let name = t.name()?; let n = t.usize()?;
+    let mut args = vec![]; for _ in 0..n { args.push(t.value()?); }
+    let f = builtins().into_iter().find(|f| f.name == name)?;
+    if f.pure { return Some("violation registered-pure".into()); }
+    for _ in 0..8 { let a = (f.func)(&args); if !nd_allowed(&name, &args, &a) { return Some(format!("violation {}", show_nres(&a))); } }
+    Some("member".into())
+}
